@@ -1,5 +1,6 @@
 -- Root of the `WpModel` library: every module that must be built by `lake build WpModel`.
 import WpModel.Model.Wire
+import WpModel.Drive.Loop
 import WpModel.Model.BreakTypes
 import WpModel.Gen.BreakTable
 import WpModel.Model.Break
